@@ -1332,6 +1332,8 @@ def np_isclose(ctx, a, b, rtol=None, atol=None):
     rtol = S.frac(1e-05) if rtol is None else rtol
     atol = S.frac(1e-08) if atol is None else atol
     f = lambda x, y: S.le(S.abs_(S.sub(x, y)), S.add(atol, S.mul(rtol, S.abs_(y))))
+    a = arr(ctx, a) if isinstance(a, (tuple, PyList)) else a
+    b = arr(ctx, b) if isinstance(b, (tuple, PyList)) else b
     return A.elementwise(ctx, f, [a, b], dtype='bool')
 
 
@@ -1618,6 +1620,17 @@ def np_concatenate(ctx, parts):
 @lib('numpy.hstack')
 def np_hstack(ctx, parts):
     return np_concatenate(ctx, parts)
+
+
+@lib('numpy.unique')
+def np_unique(ctx, a, **kw):
+    """Exact for a sequence of concrete integers (sorted, duplicate-free); anything else is outside the model."""
+    if kw:
+        raise Unsupported('np.unique keywords')
+    items = [A.unwrap0(x) for x in items_of(ctx, a)] if not S.is_scalar(a) else [a]
+    if not all(isinstance(x, int) and not isinstance(x, bool) for x in items):
+        raise Unsupported('np.unique of symbolic or non-integer values')
+    return Arr.from_list(sorted(set(items)), 'int')
 
 
 @lib('numpy.intersect1d')
